@@ -6,7 +6,8 @@ RULE = ("each case runs a structure (repository proteins incl. 3SGB with its ins
         "different residue type at chain starts and inside) and a relabelled copy: a monotone map of "
         "chain identifiers, a per-chain constant shift of residue numbers (also below zero and to the "
         "field limits), or renumbering in file order so that insertion-coded residues get numbers of "
-        "their own. Groups are matched by atom position; pKa, desolvation terms, counts, buried and "
+        "their own; 25 % of the built inputs carry two copies of one ligand in two chains and shifts make their "
+        "numbers tie. Groups are matched by atom position; pKa, desolvation terms, counts, buried and "
         "determinants (by partner) must be equal (1e-7). Non-trivial: >= 2 chains or a shift that "
         "crosses zero or an insertion code present, and >= 2 titratable groups; distinct = distinct "
         "(structure digest, relabelling).")
